@@ -43,7 +43,10 @@ cli('C02', 'H2Client.tla is model-checked (own response only, fresh increasing i
 cli('C07', 'Same ledger as C06 from the server peer side: initial windows, WINDOW_UPDATE, SETTINGS_INITIAL_WINDOW_SIZE deltas (negative windows), MAX_FRAME_SIZE changes; every client DATA frame is checked against the ledger, END_STREAM exactly once, no stall at quiescence while both windows are open.', '6 C07')
 cli('C11', 'GOAWAY(last, code) at every position relative to in-flight requests and their partial responses, subsequent response orders, connection loss, REFUSED_STREAM, double GOAWAY, new requests afterwards; the monitor requires no new stream after GOAWAY, requests above last to fail by the next quiescence and never succeed, requests at or below last to complete when the server delivers.', '6 C11')
 cli('C12', 'Fault enumeration: every cut point of a recorded server byte stream (all offsets in the thorough tier), adversarial frames inserted at several positions (oversize, PUSH_PROMISE, bad HPACK, bad padding, short fixed-size frames, unknown types, frames on unopened streams), Close racing Write at each stage, write failures at the k-th byte, cancellation at each stage; every request must resolve exactly once, loops must exit, no goroutine left.', '6 C12')
-NOT_YET = {p: 'client-side and concurrency checks are the next build step (DESIGN.md section 9, step 4); not claimed until built' for p in ('C19',)}
+CHECKS['C19'] = ('ownership', 'TLA+ ownership model (Pools.tla) folded by TLC over hook-recorded pool Get/Put/use and disciplined-variable access events of replayed model schedules; the same schedules (plus overlapping bursts) replayed from a -race build',
+  'Pools.tla states that a pooled object is in its pool or owned by exactly one holder (TLC: holds; the release-twice variant violates it). Hooks record every pool Get/Put, every handler use of its RequestCtx and every access to variables with a documented owner/lock while ~800 server and ~550 client scenarios (environment histories of H2Server/H2Client, fault and mutation generators, concurrent burst schedules mixing SETTINGS changes, resets, streamed bodies, timeouts, Close) are replayed; PoolsTrace.tla folds Pools!PoolStep over the ~90k events per run and checks the discipline table. The schedules are also replayed from a -race build: a race-detector report is the observation the property itself names. Absence of races outside the replayed schedules is NOT shown.',
+  'trusts TLC, the hook placement (put logged before Put, get after Get, one mutex), GC-off address stability, the Go race detector; schedules are a sample', '6 C19')
+NOT_YET = {p: 'client-side and concurrency checks are the next build step (DESIGN.md section 9, step 4); not claimed until built' for p in ()}
 
 def main():
     props = [json.loads(l) for l in open(os.path.join(V, 'properties.jsonl'))]
@@ -82,6 +85,8 @@ def main():
             {'name': 'client', 'path': 'spec/H2Client.tla spec/H2ClientTrace.tla harness/clidrv.go lib/cliprop.py',
              'serves_properties': ['C02', 'C07', 'C11', 'C12', 'C14', 'C18', 'C20'],
              'kind_free_text': 'TLA+ design model of the client connection; TLC-generated scenarios replayed into a real http2.Conn (scripted x/net server peer, in-memory conn, hook quiescence); TLC trace validation'},
+            {'name': 'ownership', 'path': 'spec/Pools.tla spec/PoolsTrace.tla harness/poolrec.go lib/props/c19.py',
+             'serves_properties': ['C19'], 'kind_free_text': 'TLA+ ownership state machine over hook-recorded pool/access events + race-detector replays of model-generated schedules'},
             {'name': 'hpack', 'path': 'spec/HpackWire.tla spec/Hpack.tla spec/HpackStatic.tla spec/HpackModel.tla spec/HpackTrace.tla harness/hpack.go lib/props/hpack_common.py',
              'serves_properties': ['C03', 'C04'], 'kind_free_text': 'TLA+ transcription of RFC 7541 + TLC trace validation of real decoder/encoder runs'},
             {'name': 'frames', 'path': 'spec/Frames.tla spec/FramesModel.tla spec/FramesTrace.tla harness/frames*.go lib/props/frames_common.py',
